@@ -2,7 +2,7 @@
     This file contains only the pinned statements; the stateful model is Reentrancy/ReentrancyModel.v,
     the proofs are in Reentrancy/ReentrancyProofs.v. *)
 From ClapModel Require Import Base.Bytes Base.Machine.
-From ClapModel Require Import Parse.Cmd Parse.Build Parse.Errors Parse.Parser.
+From ClapModel Require Import Parse.Cmd Parse.Build Parse.Errors Parse.Validator Parse.Parser.
 From ClapModel Require Import Reentrancy.ReentrancyModel Reentrancy.ReentrancyProofs Reentrancy.ReentrancyParse.
 From ClapModel Require Import Reentrancy.ReentrancyDym Reentrancy.ReentrancyGlobals Reentrancy.ReentrancyMsg Reentrancy.ReentrancyBuild.
 From ClapModel Require Import Parse.Valid Parse.Matcher ParseProofs.Dispatch.
@@ -97,12 +97,41 @@ Theorem C11_built_beforehand_kind_refuted :
 Proof. exact built_beforehand_kind_refuted. Qed.
 Print Assumptions C11_built_beforehand_kind_refuted.
 
-(** parser level (these four rest on functional_extensionality_dep, see Reentrancy/ReentrancyParse.v):
-    the token loop of a level reads the level's subcommands only through their signatures *)
+(** parser level: the token loop of a level reads the level's subcommands only through their signatures.
+    This statement of the third pass is an equality of FUNCTIONS and is the only theorem of the property that
+    still rests on functional_extensionality_dep; the pointwise statement (no axiom, also for arbitrary
+    BinNameBuilt marks) is [C11_parser_reads_signatures_pointwise] below, and every other theorem uses that. *)
 Theorem C11_parser_reads_signatures : forall c l',
   map sig (c_subs c) = map sig l' -> parse_loop (c <| c_subs := l' |>) = parse_loop c.
-Proof. exact sh_parse_loop. Qed.
+Proof. exact sh_parse_loop_fun. Qed.
 Print Assumptions C11_parser_reads_signatures.
+
+(** fourth pass (2): the same POINTWISE, closed under the global context, and for a command whose
+    BinNameBuilt marks (in both setting words) are set to arbitrary values: the token loop reads neither the
+    subcommands beyond their signatures nor the mark *)
+Theorem C11_parser_reads_signatures_pointwise : forall c l' v v',
+  map sig (c_subs c) = map sig l' ->
+  forall toks ls st, parse_loop (rsm c l' v v') toks ls st = parse_loop c toks ls st.
+Proof. exact shm_parse_loop. Qed.
+Print Assumptions C11_parser_reads_signatures_pointwise.
+
+(** the validator reads of a command: its arguments, its groups and four settings -- for ANY two commands *)
+Theorem C11_validator_congruence : forall c c',
+  c_args c' = c_args c -> c_groups c' = c_groups c ->
+  is_set s_arg_required_else_help c' = is_set s_arg_required_else_help c ->
+  is_set s_sub_required c' = is_set s_sub_required c ->
+  is_set s_subs_negate_reqs c' = is_set s_subs_negate_reqs c ->
+  is_set s_allow_missing_pos c' = is_set s_allow_missing_pos c ->
+  forall m, validate c' m = validate c m.
+Proof. exact v_validate. Qed.
+Print Assumptions C11_validator_congruence.
+
+(** everything [get_matches_with] does at a level after the token loop and the subcommand (pending occurrence,
+    environment, defaults, validator) ignores the subcommand list and the marks *)
+Theorem C11_level_post_reads_own_definition : forall c l v v' parsed,
+  Dispatch.post (rsm c l v v') parsed = Dispatch.post c parsed.
+Proof. exact post_rsm. Qed.
+Print Assumptions C11_level_post_reads_own_definition.
 
 (** two commands with the same normal form to every depth: same parser result, same visited names *)
 Theorem C11_parse_normal_form : forall fuel c1 c2 toks st,
